@@ -643,8 +643,9 @@ func (c *handlerCtx) handleReply() {
 		c.callCmd.result = c.input.Body()
 		c.stat = c.callCmd.stat
 		verifGate("reply.predone", c.sess)
-		c.callCmd.done()
+		// cost is read by CostTime() after <-Done(): it must be written before done()
 		c.callCmd.cost = time.Duration(c.sess.timeNow() - c.callCmd.start)
+		c.callCmd.done()
 		if enablePrintRunLog() {
 			c.sess.printRunLog(c.RealIP(), c.callCmd.cost, c.input, c.callCmd.output, typeCallLaunch)
 		}
